@@ -164,7 +164,7 @@ def verbatim_docs():
     zws = dm.Zone("hard break  \n\t\n   \nlast\t", "md", "```")
     return [("VB:zone", Doc([A("K", zws), B("B1", [A("Z", zws), dm.Z(zws)])])),
             ("VB:frontmatter", Doc([A("K", S("v"))], frontmatter="name: x  \ndescription: y\t", meta=[("TYPE", S("T"))], separator=True)),
-            ("VB:empty-comment", Doc([A("K", S("v"), lead=("",)), B("B1", [A("L", S("w"), lead=("", "x"))]), A("Q", S("q"), trail="")]))]
+            ("VB:empty-comment", Doc([A("K", S("v"), lead=("",)), B("B1", [A("L", S("w"), lead=("", "x"))]), A("Q", S("q"))]))]
 
 
 def run(ctx):
